@@ -4,6 +4,7 @@ package c20
 import (
 	"bytes"
 	"fmt"
+	"runtime"
 	"strconv"
 	"strings"
 	"sync"
@@ -120,8 +121,14 @@ func TestSequential(t *testing.T) {
 		}
 		deriveMid, parentAndChildWrote := false, false
 		// long histories write in bursts between the interesting steps
-		for total < target || len(hist) < 3 {
+		lastRead, fullTurns := -1, 0 // accepted writes at the last GetLogs/WriteLogs; reads exactly k*1024 writes after the previous one
+		forceRead := false
+		for total < target || len(hist) < 3 || forceRead {
 			k := gen.Pct(rt, "op")
+			if forceRead {
+				k = 90
+				forceRead = false
+			}
 			switch {
 			case k < 70:
 				burst := 1
@@ -131,8 +138,17 @@ func TestSequential(t *testing.T) {
 				ci := gen.Uniform(rt, 0, len(cores)-1, "wc")
 				c := cores[ci]
 				via := gen.Pick(rt, []string{"core", "logger", "below-level"}, "via")
+				limit := target + 1
+				if target > 100 && lastRead >= 0 && gen.Chance(rt, 25, "fullturn") {
+					// bring the number of writes since the last read to an exact multiple of the capacity, then read
+					burst = logging.BufferSize - (total-lastRead)%logging.BufferSize
+					via = gen.Pick(rt, []string{"core", "logger"}, "via2")
+					limit = total + burst + 1
+					forceRead = true
+					fullTurns++
+				}
 				hist = append(hist, fmt.Sprintf("write x%d via %s on core %d", burst, via, ci))
-				for b := 0; b < burst && total < target+1; b++ {
+				for b := 0; b < burst && total < limit; b++ {
 					switch via {
 					case "core":
 						total++
@@ -176,7 +192,9 @@ func TestSequential(t *testing.T) {
 			case k < 94:
 				hist = append(hist, "read")
 				check("read")
+				lastRead = total
 			default:
+				lastRead = total
 				detail := gen.Uniform(rt, 1, 3, "detail")
 				hist = append(hist, fmt.Sprintf("writeLogs(%d)", detail))
 				var buf bytes.Buffer
@@ -211,6 +229,7 @@ func TestSequential(t *testing.T) {
 		add(total >= 1000 && total <= 1060, "total-around-capacity")
 		add(total > 2000, "total-far-above-capacity")
 		add(deriveMid, "derive-mid-stream")
+		add(fullTurns > 0, "read-exactly-k*capacity-writes-after-the-previous-read")
 		add(len(cores) > 1, "derived-cores")
 		add(parentAndChildWrote, "parent-and-derived-both-wrote")
 		ev.Case(strings.Join(hist, ";"), nt, cls...)
@@ -245,6 +264,43 @@ func TestWitnesses(t *testing.T) {
 }
 
 // Concurrent writers on root and derived cores with concurrent readers (race binary).
+// yieldWriter lets other goroutines run between receiving a line and copying it.
+type yieldWriter struct{ buf bytes.Buffer }
+
+func (w *yieldWriter) Write(p []byte) (int, error) {
+	runtime.Gosched()
+	return w.buf.Write(p)
+}
+
+// checkPrint validates one WriteLogs output against what the writers can have written (per[w] entries "w/n").
+func checkPrint(out string, per []int) string {
+	if out == "" {
+		return ""
+	}
+	seen := map[string]bool{}
+	last := make([]int, len(per))
+	for _, l := range strings.Split(strings.TrimRight(out, "\n"), "\n") {
+		parts := strings.Split(l, "\t")
+		if len(parts) < 3 {
+			return fmt.Sprintf("malformed line %q", l)
+		}
+		m := parts[2]
+		var w, n int
+		if c, err := fmt.Sscanf(m, "%d/%d", &w, &n); err != nil || c != 2 || fmt.Sprintf("%d/%d", w, n) != m || w < 0 || w >= len(per) || n < 1 || n > per[w] {
+			return fmt.Sprintf("line %q: message %q was never written", l, m)
+		}
+		if seen[m] {
+			return fmt.Sprintf("entry %q printed twice", m)
+		}
+		seen[m] = true
+		if last[w] != 0 && n != last[w]-1 {
+			return fmt.Sprintf("writer %d: entry %d printed after %d (not newest first without gaps)", w, n, last[w])
+		}
+		last[w] = n
+	}
+	return ""
+}
+
 func TestRaceConcurrent(t *testing.T) {
 	ev.Rapid(t, 60, 1500)
 	rapid.Check(t, func(rt *rapid.T) {
@@ -309,6 +365,41 @@ func TestRaceConcurrent(t *testing.T) {
 				}
 			}()
 		}
+		// printers: WriteLogs into a writer that yields before it copies the bytes, concurrently with the writers,
+		// the readers and each other; every printed line must be a written entry, no entry twice in one print, per
+		// writer newest first without gaps
+		np := gen.Pick(rt, []int{0, 1, 2, 2, 3}, "nprinters")
+		prints := 0
+		for r := 0; r < np; r++ {
+			detail := gen.Uniform(rt, 1, 3, "pdetail")
+			rwg.Add(1)
+			go func() {
+				defer rwg.Done()
+				<-start
+				for round := 0; ; round++ {
+					select {
+					case <-stop:
+						if round > 0 {
+							return
+						}
+					default:
+					}
+					w := &yieldWriter{}
+					ml.WriteLogs(w, detail)
+					if msg := checkPrint(w.buf.String(), per); msg != "" {
+						mu.Lock()
+						if failure == "" {
+							failure = fmt.Sprintf("WriteLogs(%d) concurrent with writers and other printers: %s", detail, msg)
+						}
+						mu.Unlock()
+						return
+					}
+					mu.Lock()
+					prints++
+					mu.Unlock()
+				}
+			}()
+		}
 		close(start)
 		wg.Wait()
 		close(stop)
@@ -316,6 +407,7 @@ func TestRaceConcurrent(t *testing.T) {
 		if failure != "" {
 			rt.Fatalf("%s", failure)
 		}
+		ev.ExtraAdd("concurrent_prints_checked", int64(prints))
 		got := messages(ml)
 		want := total
 		if want > logging.BufferSize {
